@@ -85,7 +85,7 @@ package haproxy
 //@ end
 
 //@ func (*dynUpdater).execEnableEndpoint
-//@   props C02
+//@   props C02 C12
 //@   ensures once:   calls(ExecCmd) == 1
 //@   ensures ok:     result ==> last(ExecCmd).1 == nil && alltrue(RespOK)
 //@   loop 1 invariant seen: 0 <= $idx(1) && alltrue(RespOK) && calls(ExecCmd) == 1 && last(ExecCmd).1 == nil
@@ -135,6 +135,7 @@ package haproxy
 //@   ensures same:  result ==> calls(DeepEq) >= 1 && first(DeepEq)
 //@   loop 4 invariant mono: updated ==> calls(DeepEq) >= 1 && first(DeepEq)
 //@   loop 5 invariant mono: updated ==> calls(DeepEq) >= 1 && first(DeepEq)
+//@   at call execEnableEndpoint#1 assert cookie: !(curBack.Cookie.Preserve && $arg3.CookieValue != empty[i].CookieValue)
 //@   at call DeepEqual#1 assert masked: oldBackCopy.Name == pair.old.Name && oldBackCopy.Namespace == pair.old.Namespace && oldBackCopy.Port == pair.old.Port
 //@       && oldBackCopy.Paths == pair.old.Paths && oldBackCopy.Cookie == pair.old.Cookie && oldBackCopy.Resolver == pair.old.Resolver
 //@       && oldBackCopy.ModeTCP == pair.old.ModeTCP && oldBackCopy.BalanceAlgorithm == pair.old.BalanceAlgorithm && oldBackCopy.CustomConfig == pair.old.CustomConfig
